@@ -142,7 +142,7 @@ func cmdRun(args []string) {
 
 	t0 := time.Now()
 	// generous wall-clock watchdog: its firing is "inconclusive", never a violation by itself
-	limit := 6 * time.Minute
+	limit := 12 * time.Minute
 	if *tier == "thorough" {
 		limit = 100 * time.Minute
 	}
